@@ -1,8 +1,9 @@
 ------------------------------ MODULE MC_Gossip ------------------------------
 EXTENDS Gossip, Json, TLC
-CONSTANTS MaxOps, MaxPeriodic, MaxFaults, Gen
+CONSTANTS MaxOps, MaxPeriodic, MaxFaults, Gen,
+          Restarts      \* BOOLEAN: broker restarts are among the faults
 VARIABLES nops, nper, nflt, hist, mark
-View == <<loc, st, routes, bc, gs, up, members, live, wire, nops, nper, nflt>>        \* the clock value itself is irrelevant up to order: kept via st
+View == <<loc, st, routes, bc, gs, up, members, live, wire, fresh, nops, nper, nflt>>        \* the clock value itself is irrelevant up to order: kept via st
 Sim == Gen \in {"sim", "simmark"}
 Emit(a) == /\ hist' = IF Sim THEN Append(hist, a) ELSE hist
 MCInit == GInit /\ nops = 0 /\ nper = 0 /\ nflt = 0 /\ hist = <<>> /\ mark = FALSE
@@ -22,6 +23,8 @@ MCStep ==
                              /\ \/ /\ nflt < MaxFaults /\ FaultOK /\ LinkDown(b, n) /\ nflt' = nflt + 1 /\ Emit([n |-> "linkdown", b |-> b, to |-> n])
                                 \/ /\ LinkUp(b, n) /\ UNCHANGED nflt /\ Emit([n |-> "linkup", b |-> b, to |-> n])
                                 \/ /\ PeerGC(b, n) /\ UNCHANGED nflt /\ Emit([n |-> "gc", b |-> b, to |-> n])
+    \/ \E b \in Brokers : /\ UNCHANGED <<nops, nper>> /\ Restarts /\ nflt < MaxFaults /\ FaultOK /\ b \notin fresh
+                          /\ Restart(b) /\ nflt' = nflt + 1 /\ Emit([n |-> "restart", b |-> b])
     \/ \E b, n \in Brokers : /\ UNCHANGED <<nops, nper, nflt>>
                              /\ \/ Pick(b, n)    /\ Emit([n |-> "pick", b |-> b, to |-> n])
                                 \/ Deliver(b, n) /\ Emit([n |-> "deliver", b |-> b, to |-> n])
